@@ -3,6 +3,7 @@ import DswModel.Lemmas.Defs
 import DswModel.Lemmas.DeBruijn
 import DswModel.Lemmas.Trim
 import DswModel.Lemmas.Convert3
+import DswModel.Lemmas.CoderDefs
 /-! Helper lemmas for the threshold-1 phase of `connect_coding_graph` and for `remove_useless` (C03).
 
 Everything lives in the namespace `Dsw.TrimOne`. -/
@@ -976,6 +977,389 @@ theorem connectCodingGraph_one (k : Nat) (m : Mask) :
   cases trimLoop k 1 (4 ^ k + 1) m with
   | error e => rfl
   | ok s => simp [bind, Except.bind]
+
+
+
+/-! ### `remove_useless` -/
+
+theorem mask_ext {a b : Mask} (hs : a.size = b.size) (h : ∀ v, a.getD v false = b.getD v false) :
+    a = b := by
+  apply Array.ext hs
+  intro i h1 h2
+  have := h i
+  simpa [Array.getD, h1, h2] using this
+
+/-- the latter map with keys `K` whose lists are the successors inside `T`. -/
+def lmOf (k : Nat) (K T : Mask) : LMap :=
+  K.indices.map fun v => (v, (obtainLatters k v).filter fun w => T.getD w false)
+
+/-- keys of the next round. -/
+def nextKeys (k t : Nat) (K T : Mask) : Mask :=
+  (Array.range (4 ^ k)).map fun v => K.getD v false && decide (t ≤ succCount k T v)
+
+theorem nextKeys_size (k t : Nat) (K T : Mask) : (nextKeys k t K T).size = 4 ^ k := by
+  simp [nextKeys]
+
+theorem nextKeys_getD (k t : Nat) (K T : Mask) (hK : K.size = 4 ^ k) (v : Nat) :
+    (nextKeys k t K T).getD v false = (K.getD v false && decide (t ≤ succCount k T v)) := by
+  unfold nextKeys
+  by_cases hv : v < 4 ^ k
+  · rw [getD_range_map _ _ _ _ hv]
+  · have : K.getD v false = false := by
+      cases h : K.getD v false with
+      | false => rfl
+      | true => have := Mask.lt_size_of_getD h; omega
+    rw [this]
+    simp [Array.getD, hv]
+
+theorem mem_lmOf {k : Nat} {K T : Mask} {p : Nat × List Nat} :
+    p ∈ lmOf k K T ↔ K.getD p.1 false = true ∧
+      p.2 = (obtainLatters k p.1).filter fun w => T.getD w false := by
+  unfold lmOf
+  rw [List.mem_map]
+  constructor
+  · rintro ⟨v, hv, rfl⟩
+    exact ⟨Mask.mem_indices.1 hv, rfl⟩
+  · rintro ⟨h1, h2⟩
+    refine ⟨p.1, Mask.mem_indices.2 h1, ?_⟩
+    rw [← h2]
+
+theorem succCount_def (k : Nat) (T : Mask) (v : Nat) :
+    ((obtainLatters k v).filter fun w => T.getD w false).length = succCount k T v := rfl
+
+def rmKeys (m : LMap) (t : Nat) : List Nat := (m.filter fun p => p.2.length < t).map (·.1)
+def svKeys (m : LMap) (t : Nat) : List Nat := (m.filter fun p => ¬ p.2.length < t).map (·.1)
+def keepB (m : LMap) (t : Nat) (w : Nat) : Bool := !(rmKeys m t).contains w && (svKeys m t).contains w
+
+theorem round_eq (m : LMap) (t : Nat) : removeUselessRound m t =
+    (((m.filter fun p => !(rmKeys m t).contains p.1).map fun p => (p.1, p.2.filter (keepB m t))),
+     (m.filter fun p => !(rmKeys m t).contains p.1).any fun p => p.2.any fun w => !keepB m t w) := rfl
+
+theorem mem_rmKeys {k t : Nat} {K T : Mask} {w : Nat} :
+    w ∈ rmKeys (lmOf k K T) t ↔ K.getD w false = true ∧ succCount k T w < t := by
+  unfold rmKeys
+  simp only [List.mem_map, List.mem_filter, mem_lmOf, decide_eq_true_eq]
+  constructor
+  · rintro ⟨p, ⟨⟨h1, h2⟩, h3⟩, rfl⟩
+    rw [h2, succCount_def] at h3
+    exact ⟨h1, h3⟩
+  · rintro ⟨h1, h2⟩
+    exact ⟨(w, (obtainLatters k w).filter fun x => T.getD x false), ⟨⟨h1, rfl⟩, h2⟩, rfl⟩
+
+theorem mem_svKeys {k t : Nat} {K T : Mask} {w : Nat} :
+    w ∈ svKeys (lmOf k K T) t ↔ K.getD w false = true ∧ t ≤ succCount k T w := by
+  unfold svKeys
+  simp only [List.mem_map, List.mem_filter, mem_lmOf, decide_eq_true_eq]
+  constructor
+  · rintro ⟨p, ⟨⟨h1, h2⟩, h3⟩, rfl⟩
+    rw [h2, succCount_def] at h3
+    exact ⟨h1, by omega⟩
+  · rintro ⟨h1, h2⟩
+    exact ⟨(w, (obtainLatters k w).filter fun x => T.getD x false), ⟨⟨h1, rfl⟩, by
+      simp only [succCount_def]; omega⟩, rfl⟩
+
+/-- the keys that survive a round. -/
+theorem keepB_lmOf {k t : Nat} {K T : Mask} (hK : K.size = 4 ^ k) (w : Nat) :
+    keepB (lmOf k K T) t w = (nextKeys k t K T).getD w false := by
+  rw [nextKeys_getD k t K T hK, Bool.eq_iff_iff]
+  unfold keepB
+  simp only [Bool.and_eq_true, Bool.not_eq_true', List.contains_eq_mem, decide_eq_false_iff_not,
+    decide_eq_true_eq, mem_rmKeys, mem_svKeys]
+  constructor
+  · rintro ⟨_, h⟩; exact h
+  · rintro h; exact ⟨fun h' => by omega, h⟩
+
+theorem nextKeys_le (k t : Nat) (K T : Mask) (hK : K.size = 4 ^ k) : Mask.Le (nextKeys k t K T) K := by
+  intro v hv
+  rw [nextKeys_getD k t K T hK] at hv
+  simp only [Bool.and_eq_true] at hv
+  exact hv.1
+
+theorem indices_nextKeys {k t : Nat} {K T : Mask} (hK : K.size = 4 ^ k) :
+    K.indices.filter (fun v => !(rmKeys (lmOf k K T) t).contains v) = (nextKeys k t K T).indices := by
+  unfold Mask.indices
+  rw [List.filter_filter, nextKeys_size, hK]
+  apply List.filter_congr
+  intro v _
+  rw [nextKeys_getD k t K T hK, Bool.eq_iff_iff]
+  simp only [Bool.and_eq_true, Bool.not_eq_true', List.contains_eq_mem, decide_eq_false_iff_not,
+    decide_eq_true_eq, mem_rmKeys]
+  constructor
+  · rintro ⟨h1, h2⟩
+    refine ⟨h2, ?_⟩
+    apply Classical.byContradiction
+    intro hn
+    exact h1 ⟨h2, by omega⟩
+  · rintro ⟨h1, h2⟩
+    exact ⟨fun h => by omega, h1⟩
+
+/-- one round on a map of the shape `lmOf`. -/
+theorem round_lmOf {k t : Nat} {K T : Mask} (hK : K.size = 4 ^ k) (hKT : Mask.Le K T) :
+    (removeUselessRound (lmOf k K T) t).1 = lmOf k (nextKeys k t K T) (nextKeys k t K T) := by
+  rw [round_eq]
+  simp only
+  have e : (lmOf k K T).filter (fun p => !(rmKeys (lmOf k K T) t).contains p.1) =
+      (nextKeys k t K T).indices.map fun v => (v, (obtainLatters k v).filter fun w => T.getD w false) := by
+    rw [← indices_nextKeys hK]
+    unfold lmOf
+    rw [List.filter_map]
+    rfl
+  rw [e, List.map_map]
+  show _ = (nextKeys k t K T).indices.map fun v =>
+    (v, (obtainLatters k v).filter fun w => (nextKeys k t K T).getD w false)
+  apply List.map_congr_left
+  intro v _
+  simp only [Function.comp]
+  congr 1
+  rw [List.filter_filter]
+  apply List.filter_congr
+  intro w _
+  rw [keepB_lmOf hK]
+  cases h : (nextKeys k t K T).getD w false with
+  | false => rfl
+  | true => rw [hKT w (nextKeys_le k t K T hK w h)]; rfl
+
+theorem round_flag_false {k t : Nat} {K T : Mask} (hK : K.size = 4 ^ k)
+    (h : (removeUselessRound (lmOf k K T) t).2 = false) : TrimClosed k t (nextKeys k t K T) := by
+  rw [round_eq] at h
+  simp only at h
+  rw [List.any_eq_false] at h
+  intro v hv
+  have hv' := hv
+  rw [nextKeys_getD k t K T hK] at hv'
+  simp only [Bool.and_eq_true, decide_eq_true_eq] at hv'
+  have hmem : (v, (obtainLatters k v).filter fun w => T.getD w false) ∈
+      (lmOf k K T).filter (fun p => !(rmKeys (lmOf k K T) t).contains p.1) := by
+    rw [List.mem_filter]
+    refine ⟨mem_lmOf.2 ⟨hv'.1, rfl⟩, ?_⟩
+    simp only [Bool.not_eq_true', List.contains_eq_mem, decide_eq_false_iff_not, mem_rmKeys]
+    intro hh; omega
+  have h2 := h _ hmem
+  simp only [Bool.not_eq_true, List.any_eq_false, Bool.not_eq_true', Bool.not_eq_false] at h2
+  refine Nat.le_trans hv'.2 ?_
+  unfold succCount
+  apply filter_length_mono_mem
+  intro w hw hT
+  have := h2 w (List.mem_filter.2 ⟨hw, hT⟩)
+  rw [keepB_lmOf hK] at this
+  exact this
+
+/-! arcs -/
+
+theorem foldl_add (l : List Nat) (a : Nat) : l.foldl (· + ·) a = a + l.foldl (· + ·) 0 := by
+  induction l generalizing a with
+  | nil => simp
+  | cons x xs ih => rw [List.foldl_cons, List.foldl_cons, ih (a + x), ih (0 + x)]; omega
+
+theorem arcs_nil : LMap.arcs [] = 0 := rfl
+
+theorem arcs_cons (p : Nat × List Nat) (m : LMap) : LMap.arcs (p :: m) = p.2.length + LMap.arcs m := by
+  unfold LMap.arcs
+  rw [List.map_cons, List.foldl_cons, foldl_add]
+  omega
+
+theorem arcs_filter_map (P : Nat × List Nat → Bool) (q : Nat → Bool) (m : LMap) :
+    LMap.arcs ((m.filter P).map fun p => (p.1, p.2.filter q)) ≤ LMap.arcs m ∧
+    ((m.filter P).any (fun p => p.2.any fun w => !q w) = true →
+      LMap.arcs ((m.filter P).map fun p => (p.1, p.2.filter q)) < LMap.arcs m) := by
+  induction m with
+  | nil => simp [arcs_nil]
+  | cons p ps ih =>
+    obtain ⟨i1, i2⟩ := ih
+    rw [List.filter_cons]
+    by_cases hP : P p = true
+    · rw [if_pos hP, List.map_cons, arcs_cons, arcs_cons, List.any_cons]
+      have hl := List.length_filter_le q p.2
+      refine ⟨by simp only; omega, fun h => ?_⟩
+      simp only
+      rcases Bool.or_eq_true_iff.1 h with h | h
+      · have : (p.2.filter q).length < p.2.length := by
+          rw [List.length_filter_lt_length_iff_exists]
+          rw [List.any_eq_true] at h
+          obtain ⟨w, hw, hq⟩ := h
+          exact ⟨w, hw, by simpa using hq⟩
+        omega
+      · have := i2 h; omega
+    · rw [if_neg hP, arcs_cons]
+      exact ⟨by omega, fun h => by have := i2 h; omega⟩
+
+theorem round_arcs_lt (m : LMap) (t : Nat) (h : (removeUselessRound m t).2 = true) :
+    (removeUselessRound m t).1.arcs < m.arcs := by
+  rw [round_eq] at h ⊢
+  exact (arcs_filter_map _ _ m).2 h
+
+
+theorem removeUselessLoop_spec {k t : Nat} {m s : Mask} (hs1 : s.size = 4 ^ k)
+    (hs3 : TrimClosed k t s)
+    (hmax : ∀ c : Mask, Mask.Le c m → TrimClosed k t c → Mask.Le c s) :
+    ∀ (fuel : Nat) (K T : Mask), K.size = 4 ^ k → Mask.Le K T → Mask.Le T m → Mask.Le s K →
+      (lmOf k K T).arcs < fuel → removeUselessLoop t fuel (lmOf k K T) = .ok (lmOf k s s) := by
+  intro fuel
+  induction fuel with
+  | zero => intro K T _ _ _ _ h; omega
+  | succ f ih =>
+    intro K T hK hKT hTm hsK harcs
+    have hsK' : Mask.Le s (nextKeys k t K T) := by
+      intro v hv
+      rw [nextKeys_getD k t K T hK]
+      simp only [Bool.and_eq_true, decide_eq_true_eq]
+      exact ⟨hsK v hv, Nat.le_trans (hs3 v hv) (succCount_mono (hsK.trans hKT) v)⟩
+    have hK'm : Mask.Le (nextKeys k t K T) m := (nextKeys_le k t K T hK).trans (hKT.trans hTm)
+    rw [removeUselessLoop]
+    by_cases hflag : (removeUselessRound (lmOf k K T) t).2 = true
+    · rw [if_pos hflag]
+      have := round_arcs_lt _ _ hflag
+      rw [round_lmOf hK hKT] at this ⊢
+      exact ih _ _ (nextKeys_size k t K T) (Mask.Le.refl _) hK'm hsK' (by omega)
+    · rw [if_neg hflag, round_lmOf hK hKT]
+      have hcl := round_flag_false hK (by simpa using hflag)
+      have hle := hmax _ hK'm hcl
+      have : nextKeys k t K T = s := by
+        apply mask_ext (by rw [nextKeys_size, hs1])
+        intro v
+        rw [Bool.eq_iff_iff]
+        exact ⟨hle v, hsK' v⟩
+      rw [this]
+
+theorem trimStep_one_of_closed {k : Nat} {s : Mask} (hs : s.size = 4 ^ k) (hc : TrimClosed k 1 s) :
+    trimStep k 1 s = s := by
+  apply mask_ext (by rw [trimStep_size, hs])
+  intro v
+  rw [trimStep_getD, Bool.eq_iff_iff]
+  simp only [Bool.and_eq_true, decide_eq_true_eq]
+  constructor
+  · rintro ⟨_, h, _⟩; exact h
+  · intro h
+    exact ⟨by rw [← hs]; exact Mask.lt_size_of_getD h, h, hc v h⟩
+
+/-- the latter map of an induced accessor. -/
+theorem accessorToLatterMap_induced (k : Nat) (m : Mask) :
+    accessorToLatterMap (inducedAccessor k m) = lmOf k (trimStep k 1 m) m := by
+  have hv : obtainVertices (inducedAccessor k m) = (trimStep k 1 m).indices := by
+    unfold obtainVertices Mask.indices
+    rw [inducedAccessor_size_trim, trimStep_size]
+    apply List.filter_congr
+    intro v hv
+    rw [List.mem_range] at hv
+    rw [inducedAccessor_row_any k m v hv, trimStep_getD]
+    simp [hv]
+  unfold accessorToLatterMap lmOf
+  rw [hv]
+  apply List.map_congr_left
+  intro v hvm
+  have hvm' := Mask.mem_indices.1 hvm
+  rw [trimStep_getD] at hvm'
+  simp only [Bool.and_eq_true, decide_eq_true_eq] at hvm'
+  obtain ⟨hvn, hmv, _⟩ := hvm'
+  congr 1
+  rw [(inducedAccessor_wfdb k m).liveEntries_eq hvn]
+  unfold obtainLatters Acc.live
+  rw [List.filter_map]
+  congr 1
+  apply List.filter_congr
+  intro j hj
+  rw [List.mem_range] at hj
+  simp only [Function.comp]
+  rw [inducedAccessor_ent_trim k m v j hvn hj, Bool.eq_iff_iff]
+  simp only [ge_iff_le, decide_eq_true_eq]
+  constructor
+  · intro h
+    split at h
+    · rename_i hc; exact hc.2
+    · omega
+  · intro h
+    rw [if_pos ⟨hmv, h⟩]; omega
+
+theorem latterMapToAccessor_some (lm lm' : LMap) (k t : Nat) (h : removeUseless lm t = .ok lm') :
+    latterMapToAccessor lm k (some t) = latterMapToAccessor lm' k none := by
+  unfold latterMapToAccessor
+  simp only [h, bind, Except.bind, pure, Except.pure]
+
+/-- trimming the latter map of the induced graph to threshold `t` gives the graph induced on the
+result of the trimming loop. -/
+theorem latterMap_trim {k t f : Nat} {m s : Mask} (hk : 1 ≤ k) (ht : 1 ≤ t) (hm : m.size = 4 ^ k)
+    (hl : trimLoop k t f m = .ok s) :
+    latterMapToAccessor (accessorToLatterMap (inducedAccessor k m)) k (some t) =
+      .ok (inducedAccessor k s) := by
+  obtain ⟨h1, h2, h3, h4, _⟩ := trimLoop_ok k t f m s hm hl
+  have hc1 : TrimClosed k 1 s := fun v hv => Nat.le_trans ht (h3 v hv)
+  have hloop : removeUseless (accessorToLatterMap (inducedAccessor k m)) t =
+      .ok (accessorToLatterMap (inducedAccessor k s)) := by
+    rw [accessorToLatterMap_induced k s, trimStep_one_of_closed h1 hc1, accessorToLatterMap_induced k m]
+    unfold removeUseless
+    exact removeUselessLoop_spec h1 h3 h4 _ _ _ (trimStep_size k 1 m) (trimStep_le k 1 m)
+      (Mask.Le.refl m) (trimStep_closed_le hm h2 hc1) (by omega)
+  rw [latterMapToAccessor_some _ _ k t hloop]
+  exact latterMap_roundtrip k _ hk (inducedAccessor_wfdb k s)
+
+
+
+/-! ### what the encoder needs from the generated graph -/
+
+theorem trimClosed_closedOne {k t : Nat} {s : Mask} (ht : 2 ≤ t) (h : TrimClosed k t s) :
+    ClosedOne k s := fun v hv =>
+  ⟨Nat.le_trans (by omega) (h v hv), RB.here v hv (Nat.le_trans ht (h v hv))⟩
+
+theorem succCount_le_induced_deg {k : Nat} {s : Mask} {v : Nat} (hvn : v < 4 ^ k)
+    (hv : s.getD v false = true) : succCount k s v ≤ (inducedAccessor k s).deg v := by
+  rw [succCount_eq, deg_eq]
+  apply filter_length_mono_mem
+  intro j hj hc
+  rw [List.mem_range] at hj
+  rw [inducedAccessor_ent_trim k s v j hvn hj, if_pos ⟨hv, hc⟩]
+  exact decide_eq_true (Int.natCast_nonneg _)
+
+/-- an arc of an induced accessor leads from a marked vertex to a marked vertex. -/
+theorem induced_arc {k : Nat} {s : Mask} {v j : Nat} (hvn : v < 4 ^ k)
+    (hj : j ∈ (inducedAccessor k s).live (v : Int)) :
+    (inducedAccessor k s).ent (v : Int) j = (((v * 4 + j) % 4 ^ k : Nat) : Int) ∧
+      s.getD ((v * 4 + j) % 4 ^ k) false = true := by
+  rw [Acc.mem_live] at hj
+  obtain ⟨hj4, he⟩ := hj
+  rw [inducedAccessor_ent_trim k s v j hvn hj4] at he ⊢
+  split at he
+  · rename_i hc
+    rw [if_pos hc]; exact ⟨rfl, hc.2⟩
+  · omega
+
+theorem induced_reach_marked {k : Nat} {s : Mask} (hs : s.size = 4 ^ k) {x u : Int}
+    (h : (inducedAccessor k s).Reach x u) :
+    ∀ v : Nat, x = (v : Int) → s.getD v false = true →
+      ∃ u0 : Nat, u = (u0 : Int) ∧ s.getD u0 false = true := by
+  induction h with
+  | refl x => intro v hx hv; exact ⟨v, hx, hv⟩
+  | step x j w hj _ ih =>
+    intro v hx hv
+    subst hx
+    have hvn : v < 4 ^ k := by rw [← hs]; exact Mask.lt_size_of_getD hv
+    obtain ⟨e1, e2⟩ := induced_arc hvn hj
+    exact ih _ e1 e2
+
+theorem induced_rb_reach {k : Nat} {s : Mask} (hs : s.size = 4 ^ k) {v : Nat} (h : RB k s v) :
+    ∃ w : Int, (inducedAccessor k s).Reach (v : Int) w ∧ (inducedAccessor k s).outDeg w ≥ 2 := by
+  induction h with
+  | here v hv h2 =>
+    have hvn : v < 4 ^ k := by rw [← hs]; exact Mask.lt_size_of_getD hv
+    exact ⟨(v : Int), Acc.Reach.refl _, Nat.le_trans h2 (succCount_le_induced_deg hvn hv)⟩
+  | step v w hv hw hsw _ ih =>
+    have hvn : v < 4 ^ k := by rw [← hs]; exact Mask.lt_size_of_getD hv
+    obtain ⟨x, hx1, hx2⟩ := ih
+    obtain ⟨j, hj, rfl⟩ := (mem_obtainLatters k v w).1 hw
+    have he : (inducedAccessor k s).ent (v : Int) j = (((v * 4 + j) % 4 ^ k : Nat) : Int) := by
+      rw [inducedAccessor_ent_trim k s v j hvn hj, if_pos ⟨hv, hsw⟩]
+    refine ⟨x, Acc.Reach.step _ j x ((Acc.mem_live _ _ _).2 ⟨hj, by rw [he]; omega⟩) ?_, hx2⟩
+    rw [he]; exact hx1
+
+/-- on the graph induced on a `ClosedOne` mask every marked vertex is a good start for the
+encoder. -/
+theorem induced_goodFrom {k : Nat} {s : Mask} (hs : s.size = 4 ^ k) (hc : ClosedOne k s) {v : Nat}
+    (hv : s.getD v false = true) : (inducedAccessor k s).GoodFrom (v : Int) := by
+  intro u hu
+  obtain ⟨u0, rfl, hu0⟩ := induced_reach_marked hs hu v rfl hv
+  have hun : u0 < 4 ^ k := by rw [← hs]; exact Mask.lt_size_of_getD hu0
+  refine ⟨⟨by omega, ?_⟩, ?_, induced_rb_reach hs (hc u0 hu0).2⟩
+  · rw [inducedAccessor_size_trim]; exact_mod_cast hun
+  · exact induced_deg_pos_of_closed hc.trimClosed hun hu0
 
 
 end Dsw.TrimOne
